@@ -158,7 +158,7 @@ func (a *archetype) Remove(index uint32) bool {
 			}
 			src := unsafe.Add(lay.pointer, old*size)
 			dst := unsafe.Add(lay.pointer, index*size)
-			a.copy(src, dst, size)
+			a.copyComponent(id, src, dst, size)
 		}
 	}
 
@@ -185,6 +185,11 @@ func (a *archetype) Zero(index uint32, id ID) {
 		return
 	}
 	dst := unsafe.Add(lay.pointer, index*size)
+	if a.node.hasPointers.Get(id) {
+		// Zero with write barriers, so that a concurrent garbage collection sees the deletion.
+		reflect.NewAt(a.componentType(id), dst).Elem().SetZero()
+		return
+	}
 	a.copy(a.node.zeroPointer, dst, size)
 }
 
@@ -204,7 +209,7 @@ func (a *archetype) Set(index uint32, id ID, comp interface{}) unsafe.Pointer {
 	rValue := reflect.ValueOf(comp)
 
 	src := rValue.UnsafePointer()
-	a.copy(src, dst, size)
+	a.copyComponent(id, src, dst, size)
 	return dst
 }
 
@@ -217,7 +222,7 @@ func (a *archetype) SetPointer(index uint32, id ID, comp unsafe.Pointer) unsafe.
 		return dst
 	}
 
-	a.copy(comp, dst, size)
+	a.copyComponent(id, comp, dst, size)
 	return dst
 }
 
@@ -311,6 +316,23 @@ func (a *archetype) UpdateStats(node *stats.Node, stats *stats.Archetype, reg *c
 	stats.Size = int(a.Len())
 	stats.Capacity = cap
 	stats.Memory = memory
+}
+
+// componentType returns the type of the component with the given ID.
+func (a *archetype) componentType(id ID) reflect.Type {
+	index, _ := a.indices.Get(id.id)
+	return a.node.Types[index]
+}
+
+// copyComponent copies a component value. Types that contain pointers are copied as typed
+// values (with the garbage collector's write barriers); all others as raw bytes.
+func (a *archetype) copyComponent(id ID, src, dst unsafe.Pointer, itemSize uint32) {
+	if a.node.hasPointers.Get(id) {
+		tp := a.componentType(id)
+		reflect.NewAt(tp, dst).Elem().Set(reflect.NewAt(tp, src).Elem())
+		return
+	}
+	a.copy(src, dst, itemSize)
 }
 
 // copy from one pointer to another.
